@@ -15,7 +15,7 @@ import vlib
 import models
 
 EXE = "waits"
-FAMS = ["conv_chain", "conv_chain_big", "single", "diamond", "mixed_cpu", "lut_heavy", "conv_chain_big", "single"]
+FAMS = ["conv_chain", "conv_chain_big", "single", "diamond", "mixed_cpu", "lut_heavy", "conv_chain_big", "single", "lut_mixed"]
 
 
 # =====================================================================================================================
